@@ -13,6 +13,8 @@ import Pymc.Model.Failover
 import Pymc.Model.PoolConc
 import Pymc.Model.Pooled
 import Pymc.Model.PooledCall
+import Pymc.Model.HashCall
+import Pymc.Model.HashCallMany
 import Pymc.Model.Serde
 import Pymc.Model.Aws
 import Pymc.Model.HashRoute
@@ -566,6 +568,82 @@ def handlePooledCall (ws : List String) : Option String := do
     s!"{c.id}/{showO c.conn}/{if c.sockOpen then 1 else 0}/{c.pipe.length}")
   pure s!"ok {" | ".intercalate (obs.map showOb)} ; free=[{free}] closed=[{",".intercalate (st.closed.map toString)}] out={st.used.length}"
 
+/-! ### C01/C13: `HashClient ∘ Client` (`Pymc/Model/HashCall.lean`, `Pymc/Model/HashCallMany.lean`), a whole history in one line (stateless)
+
+`hashcall cfg=<au><utf8><dnr><ign>:<pfxhex> fo=<retry_attempts>,<retry_timeout>,<dead_timeout> n=<servers> t0=<t> <call> | <call> | …`
+
+* `cfg=` as for `call` (configuration of the inner clients); its `<ign>` flag is the `ignore_exc` of the `HashClient`
+  (inner clients never ignore);
+* servers are `0 … n-1`, the `HashClient` is constructed at time `t0`;
+* the calls are separated by a token `|`; a single-key `<call>` is `rk=<s,s,…> t=<now> op=… <arguments of the op>
+  [cf=x<code>] [sf=x<code>] ev=… ev=…` with the tokens of the `call` command; `rk=` is the routing key: the preference
+  order of the servers for the key (`Failover.prefRoute`; `-` = no preference: the first node in rotation);
+* a `get_many` / `gets_many` `<call>` is `op=hget_many gets=<0|1> t=<now> keys=<rk>~<key>|<rk>~<key>|… (or `-`)
+  [s<i>.cf=x<code>] [s<i>.sf=x<code>] s<i>.ev=… …`: every key with its routing key, and per server `i` the script of its
+  connection during the call.
+
+Examples:
+`hashcall cfg=0000: fo=0,1,5 n=2 t0=0 rk=0,1 t=0 op=get k=b:6b cf=x61 | rk=0,1 t=1 op=get k=b:6b ev=d:454e440d0a`
+`hashcall cfg=0000: fo=1,1,5 n=2 t0=0 op=hget_many gets=0 t=0 keys=0,1~b:6b|1,0~b:7a s0.ev=d:454e440d0a s1.cf=x61`
+
+Reply: `ok <obs> | <obs> | …` with one `<obs>` per call:
+`res=<result token|exc:…> srv=<servers handed to _safely_run_func, `+`-separated|-> client=<client object invoked per such
+server, `-` if not contacted|-> nodes=[…] failed=[s:attempts@t,…] dead=[s@t,…] ldc=<t>
+clients=[<server>:<object>:<open>:<bytes unread>,…] cons=<tags of the consumed recv() results, per inner call `+`-separated>`
+(bookkeeping state and registered client objects after the call). -/
+def handleHashCall (ws : List String) : Option String := do
+  let (cfg, ign) ← parseCfg ws
+  let fo ← natList (← arg ws "fo")
+  let fcfg : Failover.Cfg ← match fo with | [ra, rt, dt] => some ⟨ra, rt, dt, ign⟩ | _ => none
+  let n ← (← arg ws "n").toNat?
+  let t0 ← (← arg ws "t0").toNat?
+  let parseScript := fun (seg : List String) => do
+    let cf ← parseExcOpt ((arg seg "cf").getD "-")
+    let sf ← parseExcOpt ((arg seg "sf").getD "-")
+    let evs ← evsOf seg
+    pure ({ connectFails := cf, sendFails := sf, evs := evs } : Exchange.Script)
+  let calls ← (splitOnTok ws "|").mapM fun seg => do
+    let now ← (← arg seg "t").toNat?
+    if (arg seg "op") = some "hget_many" then
+      let gets := (← arg seg "gets") = "1"
+      let kstr ← arg seg "keys"
+      let keys ← if kstr = "-" then some [] else (kstr.splitOn "|").mapM fun it =>
+        (match it.splitOn "~" with
+        | [r, k] => do pure ((← natList r), (← parseKey k))
+        | _ => none)
+      let scripts ← (List.range n).mapM fun i =>
+        let pre := s!"s{i}."
+        (parseScript ((seg.filter (·.startsWith pre)).map fun w => (w.drop pre.length).toString)).map fun sc => (i, sc)
+      let lookup : Nat → Exchange.Script := fun s => ((scripts.find? (·.1 = s)).map (·.2)).getD {}
+      pure (({ op := .getMany gets keys lookup, now := now } : HashCall.MCall (List Nat)), HashCall.defaultRes .version)
+    else
+      let c ← parseCall seg
+      let sc ← parseScript seg
+      let rk ← natList (← arg seg "rk")
+      pure (({ op := .cmd rk c sc, now := now } : HashCall.MCall (List Nat)), HashCall.defaultRes c)
+  let showO := fun (o : Option Nat) => match o with | some i => toString i | none => "-"
+  let rec go (st : HashCall.St) (k : Nat) (cs : List (HashCall.MCall (List Nat) × Client.Res)) (acc : List String) : List String :=
+    match cs with
+    | [] => acc.reverse
+    | (mc, dv) :: rest =>
+      let (st1, ob) := HashCall.callM cfg fcfg Failover.prefRoute st k mc
+      let res := match ob.res with
+        | .value r => showRes r
+        | .default => showRes dv
+        | .raised _ e => "exc:" ++ showExc e
+        | .allDown => "exc:MemcacheError"
+        | .illegalKey => "exc:IllegalInput"
+        | .internalError => "exc:Internal"
+      let plus := fun (l : List String) => if l = [] then "-" else "+".intercalate l
+      let cons := plus (ob.steps.map fun stp =>
+        if stp.consumed = [] then "-" else ",".intercalate (stp.consumed.map fun (te : Framing.TEv) => toString te.1))
+      let clients := ",".intercalate (st1.clients.map fun (s, cl) =>
+        let unread := if cl.sockOpen then (Readers.joinData (cl.pipe.map fun (te : Framing.TEv) => te.2)).length else 0
+        s!"{s}:{cl.id}:{if cl.sockOpen then 1 else 0}:{unread}")
+      let line := s!"res={res} srv={plus (ob.batches.map fun b => toString b.server)} client={plus (ob.batches.map fun b => showO b.client)} {Failover.showState st1.fo} clients=[{clients}] cons={cons}"
+      go st1 (k + 1) rest (line :: acc)
+  pure ("ok " ++ " | ".intercalate (go (HashCall.init (List.range n) t0) 0 calls []))
+
 /-! ### C12: `batches seed=<n> nodes=<cps>;<cps> keys=<routing cps>~<key>|…` -/
 def handleBatches (ws : List String) : Option String := do
   let seed ← (← arg ws "seed").toNat?
@@ -662,6 +740,7 @@ def handle (ws : List String) : String :=
     | "pool" :: rest => handlePool rest
     | "pooled" :: rest => handlePooled rest
     | "pooledcall" :: rest => handlePooledCall rest
+    | "hashcall" :: rest => handleHashCall rest
     | "serde" :: rest => handleSerde rest
     | "aws.discover" :: rest => handleAwsDiscover rest
     | "aws.reconf" :: rest => handleAwsReconf rest
